@@ -779,14 +779,7 @@ func (c *compiler) evalCallExpression(node *ast.CallExpression) (interface{}, er
 		}
 
 		if !rv.IsValid() {
-			if rv.Kind() == reflect.Slice {
-				rv = rc.FieldByName(mname)
-				if rv.IsValid() {
-					return rv.Interface(), nil
-				}
-			}
-
-			return rc.Interface(), nil
+			return nil, fmt.Errorf("'%s' does not have a method named '%s' (%s.%s)", node.Callee.String(), mname, node.Callee.String(), mname)
 		}
 	} else {
 		f, err := c.evalExpression(node.Function)
